@@ -78,7 +78,7 @@ func (ps *pathState) chooseSched(infos []TInfo) int {
 		panic("chooseSched: no alternatives")
 	}
 	if n == 1 {
-		if ps.replaying() || !ps.eng.Cfg.SleepSets {
+		if ps.replaying() || !ps.eng.Cfg.SleepSets || ps.eng.Cfg.DelayBound >= 0 {
 			return 0
 		}
 		if ps.asleep(&infos[0]) {
@@ -93,9 +93,20 @@ func (ps *pathState) chooseSched(infos []TInfo) int {
 			ps.inconclusive("engine nondeterminism")
 		}
 		ps.record(d)
+		ps.delays += int(d.V)
 		return int(d.V)
 	}
 	ps.checkBudget()
+	if db := ps.eng.Cfg.DelayBound; db >= 0 {
+		// delay-bounded exploration (no sleep sets): alternative i costs i delays
+		for i := n - 1; i >= 1; i-- {
+			if ps.delays+i <= db {
+				ps.pushSiblingSleep(Decision{'c', int64(i)}, ps.modelOrNil(), nil)
+			}
+		}
+		ps.record(Decision{'c', 0})
+		return 0
+	}
 	if !ps.eng.Cfg.SleepSets {
 		for i := n - 1; i >= 1; i-- {
 			ps.pushSiblingSleep(Decision{'c', int64(i)}, ps.modelOrNil(), nil)
